@@ -67,12 +67,17 @@ func dumpEncTables() encTables {
 }
 
 // writeEncGen writes the Coq files for the encode tables and returns the stages.
-func writeEncGen(gdir string, e encTables) [][]string {
+func writeEncGen(gdir string, e encTables) [][]string { return writeEncGenW(gdir, e, []int{8, 16}) }
+
+// only the 8-bit tables (C04)
+func writeEncGen8(gdir string, e encTables) [][]string { return writeEncGenW(gdir, e, []int{8}) }
+
+func writeEncGenW(gdir string, e encTables, widths []int) [][]string {
 	os.MkdirAll(gdir, 0o755)
 	hdr := "(* generated: the encode tables of the current tree as Coq terms, with their checked certificates *)\nFrom Coq Require Import ZArith List Lia. Import ListNotations. Open Scope Z_scope.\nFrom PrismV Require Import Num.Dyadic Num.Curves Num.TableCheck Num.EncCheck.\n"
 	var stage1, stage2, exports []string
 	for _, s := range spaces[:3] {
-		for _, w := range []int{8, 16} {
+		for _, w := range widths {
 			vals, m, mo := e.t8[s.name], 511, 255
 			if w == 16 {
 				vals, m, mo = e.t16[s.name], 65535, 65535
